@@ -39,7 +39,7 @@ def run_op(rep, h, nproc=None, bounds=None, replay_fn=None):
     # replay distinct candidates (distinct by result kind first, then arbitrary)
     seen, todo = set(), []
     for c in h.viol:
-        k = (tuple(c["res"][:2]),)
+        k = repr(c["res"][:2])[:200]
         if k not in seen:
             seen.add(k)
             todo.append(c)
